@@ -22,6 +22,11 @@ def runOp (args impl : List String) : Option (String × String) := do
   let setupFailed := arg "setupfail" "0" ≠ "0"
   let maxit := an "maxit" "0"
   let conc := an "conc" "10"
+  -- when triggering stops (duration end or the caller's cancel); in-flight iterations may be abandoned
+  -- only after the completion timeout has run from that moment
+  let stopAt := if an "cancel" "-1" ≥ 0 ∧ an "cancel" "-1" < an "dur" "600" then an "cancel" "-1" else an "dur" "600"
+  let abandonedEarly := n "inflight" > 0 ∧ maxit = 0 ∧ arg "mode" "constant" ≠ "file" ∧
+    n "ret" < stopAt + an "timeout" "3000" - 60
   let spec : String :=
     if prop = "C01" ∨ prop = "C16" then
       if n "inflight" ≠ 0 ∨ blocked then "ok"
@@ -46,7 +51,8 @@ def runOp (args impl : List String) : Option (String × String) := do
       else if arg "expectfull" "0" = "1" ∧ n "maxflight" ≠ conc then "FAIL not-all-workers-usable"
       else "ok"
     else if prop = "C05" then
-      if ¬blocked ∧ n "inflight" ≠ 0 then "FAIL returned-while-started-iterations-still-running"
+      if abandonedEarly then "FAIL returned-with-iterations-in-flight-before-the-completion-timeout"
+      else if ¬blocked ∧ n "inflight" ≠ 0 ∧ arg "expectinflight" "0" = "0" then "FAIL returned-while-started-iterations-still-running"
       else if n "startedAfter" ≠ 0 then "FAIL iteration-started-after-the-run-returned"
       else if n "progressAfter" ≠ 0 then "FAIL progress-reported-after-the-run-returned"
       else if n "leak" ≠ 0 then "FAIL goroutine-of-the-run-remains"
@@ -58,6 +64,7 @@ def runOp (args impl : List String) : Option (String × String) := do
       if n "setups" ≠ 1 then "FAIL setup-not-exactly-once"
       else if n "setupFirst" ≠ 1 then "FAIL iteration-before-setup-completed"
       else if setupFailed ∧ (n "started" ≠ 0 ∨ n "failed" ≠ 1) then "FAIL setup-failure-not-contained"
+      else if abandonedEarly then "FAIL teardown-ran-before-iterations-finished-or-the-completion-timeout"
       else if ¬blocked ∧ n "tdLast" ≠ 1 then "FAIL setup-cleanup-ran-before-iterations-finished"
       else if n "tdOrder" ≠ 1 then "FAIL setup-cleanups-not-once-in-reverse-order"
       else "ok"
